@@ -37,6 +37,10 @@ def run(F, rep, tier):
     t3 = tir.pretty(rd["tir"]["value"])
     rep.ob("junk.not-stored", "Extra content after Game End" in "".join(str(x.get("v")) for x in tir.walk(rd["tir"]["value"]) if x.get("k") == "Array") or "let buf = std::vec::from_elem(0, len); r.read_exact(&mut buf)?" in t3,
            "io::slippi::de::read", "junk", "bytes after Game End inside the raw element must be read and discarded (only the doubled-end quirk is remembered)")
+    # positive control: the raw_size polynomial must change when a term is dropped
+    full = emission.RawSize(F).poly()
+    dropped = full - emission.Poly.atom("END") * emission.Poly.atom("DOUBLE") * (emission.Poly.const(1) + emission.Poly.atom("sz[GameEnd]"))
+    rep.control("polynomial comparison sees a dropped doubled-end term", emission.canon(full) != emission.canon(dropped) and ("DOUBLE", "END") in full)
     rep.trusted += ["byteorder write_* emit exactly their width; Write::write_all emits exactly the slice"]
     rep.assumptions += ["the Gecko blob holds 512*ceil(actual_size/512) bytes", "a game with Gecko codes has version >= 3.3", "item_offset spans the item column"]
     rep.not_decided.append("the fixed-point equality of two writes (value-level); decided: declared length = emitted length symbolically, canonical order, table/emission agreement, nothing dropped is stored")
